@@ -278,3 +278,68 @@ func sexpString(v any) string {
 	}
 	return ""
 }
+
+// scalarModel returns the scalar constants (name -> value) of a model of the failed obligation.
+func (x *Exec) scalarModel(o *Obligation, dir string, timeoutS int) map[string]string {
+	script := x.obligationScript(o, nil)
+	script = strings.Replace(script, "(set-logic ALL)", "(set-option :produce-models true)\n(set-logic ALL)", 1) + "(get-model)\n"
+	file := filepath.Join(dir, sanitizeFile(o.Name)+".getmodel.smt2")
+	os.WriteFile(file, []byte(script), 0o644)
+	ctx, cancel := context.WithTimeout(context.Background(), time.Duration(timeoutS+5)*time.Second)
+	defer cancel()
+	cmd := exec.CommandContext(ctx, "z3-new", fmt.Sprintf("-T:%d", timeoutS), file)
+	var out bytes.Buffer
+	cmd.Stdout = &out
+	cmd.Run()
+	s := out.String()
+	if firstLine(s) != "sat" {
+		return nil
+	}
+	toks := sexpTokens(s[strings.Index(s, "sat")+3:])
+	res := map[string]string{}
+	// scan for ( define-fun NAME ( ) SORT VALUE )
+	for i := 0; i+4 < len(toks); i++ {
+		if toks[i] == "define-fun" && toks[i+2] == "(" && toks[i+3] == ")" {
+			name := toks[i+1]
+			j := i + 4
+			// skip sort
+			depth := 0
+			for ; j < len(toks); j++ {
+				if toks[j] == "(" {
+					depth++
+				} else if toks[j] == ")" {
+					depth--
+				}
+				if depth == 0 {
+					j++
+					break
+				}
+			}
+			// value: one token or balanced list
+			if j < len(toks) {
+				if toks[j] != "(" {
+					res[name] = toks[j]
+				} else {
+					depth = 0
+					var parts []string
+					for k := j; k < len(toks); k++ {
+						parts = append(parts, toks[k])
+						if toks[k] == "(" {
+							depth++
+						} else if toks[k] == ")" {
+							depth--
+							if depth == 0 {
+								break
+							}
+						}
+					}
+					v := strings.Join(parts, " ")
+					if len(v) < 80 {
+						res[name] = v
+					}
+				}
+			}
+		}
+	}
+	return res
+}
